@@ -554,6 +554,9 @@ func checkC08(p *Prog, r *Report) {
 	r.Rule("R8.11", "The loops that must treat every element of a collection do so: no early exit, and no path through an iteration that skips the operation (every started candidate's I/O is aborted at close).", 1)
 	checkForAllLoops(p, r, "C08")
 
+	r.Rule("R8.14", "After Close, Conn.Write and Conn.WriteToPair return the closed error without touching a socket: the write is reached only where loop.Err() was nil (shared with C07 R7.1).", 2)
+	checkWritesRequireOpenAgent(p, r)
+
 	r.Rule("R8.13", "No mutex that the close-time abort path acquires (abortIO: expire the deadlines, abort a shared write, close the conn — and everything they reach) is held across a read or write on a stream connection, which can block for as long as the peer does not read or write: the abort would wait for that mutex and Close would never return.", 3)
 	checkNoStreamIOUnderAbortLocks(p, r)
 
